@@ -60,6 +60,18 @@ func (c *Ctx) fresh(hint string, s Sort) Term {
 	return Term{name, s}
 }
 
+// strLen: the byte length of the string with this code - an uninterpreted function of the code, exact for constants
+// (constVal), related through slicing, concatenation and conversions; nothing else is known about a string.
+func (c *Ctx) strLen(code Term) Term {
+	if !c.declared["strlen"] {
+		c.declared["strlen"] = true
+		c.decls = append(c.decls, "(declare-fun strlen (Int) Int)")
+	}
+	l := app(SInt, "strlen", code)
+	c.assume(And(Ge(l, IntLit(0)), Lt(l, BigLit(pow2big(62)))))
+	return l
+}
+
 func (c *Ctx) freshArray(hint string, elem Sort) Term {
 	c.nfresh++
 	name := fmt.Sprintf("%s!%d", sanitize(hint), c.nfresh)
